@@ -12,7 +12,17 @@ import Mathlib.Tactic.Linarith
 Statements about the executable definitions of `Model/Balance.lean` (namespace `Cooler.IC`), which the
 correspondence harness runs against `cooler.balance_cooler`.  The analytic core (`final_step_bound`,
 `variance_gives_delta`, `converged_rowsums_bound`, `cis_bound`, `trans_bound_partial`, `diag_partial`)
-is in `Props/C10IC.lean`.
+is in `Props/C10IC.lean`, the real-analytic facts behind the MAD-max cut in `Props/C10Mad.lean`.
+
+Main results of this file
+* `marginalize_eq_rowsum`, `marginalize_diag_double` — what `_marginalize` computes (finding D17).
+* `diag_rowsums_not_flat`, `trans_rowsums_not_flat` — machine-checked witnesses of findings D17, D18.
+* `masks_code_eq_spec` — with `ignore_diags ≥ 1` the code's bin masks are the documented ones.
+* `provedInterval_sound` — the interval the driver hands out satisfies the theorem's hypotheses.
+* `applyUpdate_nonneg`, `applyUpdate_zero_iff`, `icLoop_invariant`, `icLoop_emptied_iff`, `mask_iff`,
+  `others_positive`, `balance_genome_mask_iff` — exactly which bins carry NaN; the others are `> 0`.
+* `model_marg_eq_dense`, `model_final_step_bound`, `model_converged_bound` — the analytic bound restated
+  on the executable sweep.
 -/
 namespace Cooler.C10
 open Cooler Cooler.IC
